@@ -9,4 +9,7 @@ package session
 // invocation under id in direction dir (0 incoming, 1 outgoing); 0 = nothing
 // stored. nall: length of the list the last AllPackets call returned.
 //@ ghost saved map[int]map[int]int
+// storedobj[p]: the packet object p has been handed to a session store (the
+// store keeps the reference: the object must not be reused for another record)
+//@ ghost storedobj map[ref]bool
 //@ ghost nall int
